@@ -231,6 +231,7 @@ func runC16(res *Result) {
 		}
 	}
 	oracleC16Innermost(res)
+	oracleC11GenericReceivers(res) // the function name GetOneLineSource reports, for generic receivers
 	res.Distinct = res.Cases
 	res.Extra = map[string]interface{}{"c16_table_names": names}
 	res.Rule = "every exported stack-capturing / domain-computing function of the root package, errutil, withstack, domains × depth 0..3 (depth variants) through a chain of non-inlinable frames in distinct packages; the expected frame is read off runtime.Callers inside the calling closure"
